@@ -162,7 +162,11 @@ func Snap(r resource.Resource) string {
 	case *conformance.IntResource:
 		fmt.Fprintf(&b, " val=%d", x.Value())
 	case *conformance.StrResource:
-		fmt.Fprintf(&b, " val=%q", x.Value())
+		if v := x.Value(); len(v) > 40 {
+			fmt.Fprintf(&b, " val=%q...(%d bytes, sum %d)", v[:16], len(v), sum(v))
+		} else {
+			fmt.Fprintf(&b, " val=%q", v)
+		}
 	}
 	return b.String()
 }
@@ -244,4 +248,12 @@ func (l *Log) OfType(typ resource.Type) []Commit {
 		}
 	}
 	return out
+}
+
+func sum(s string) uint32 {
+	h := uint32(2166136261)
+	for i := 0; i < len(s); i++ {
+		h = (h ^ uint32(s[i])) * 16777619
+	}
+	return h
 }
